@@ -180,6 +180,10 @@ Proof.
   intros H. destruct (tsx_text e t H) as [-> Ok]. rewrite (parse_std_text _ Ok (civil_of_day_exists (t + e))).
   f_equal. exact (proj2 (civil_of_ok (t + e) H)).
 Qed.
+
+(* ... and it is the canonical text of that instant: the infix filter of the time-stamp namings accepts it *)
+Lemma canonical_tsx e t : in_years e t -> canonical_ts std_fmt (tsx e t) = true.
+Proof. intros H. unfold canonical_ts. rewrite (parse_tsx e t H). unfold tsx. rewrite beq_refl. reflexivity. Qed.
 Print Assumptions parse_tsx.
 
 Example parse_tsx_instance : parse_ts_local std_fmt (tsx 7200 1700000000) = Some 1700007200.
